@@ -16,15 +16,16 @@
 (* Mutant: "firstChildOnly", "reverseOrder", "noFlatten" give deliberately *)
 (* wrong step rules; C02_MC's laws must reject each.                       *)
 (***************************************************************************)
-EXTENDS FPValues, SequencesExt
-
-CONSTANT Mutant
+EXTENDS FPValues, SequencesExt, FPMutant
 
 RECURSIVE NodeAtFrom(_, _, _)
 NodeAtFrom(node, addr, k) == IF k > Len(addr) THEN node ELSE NodeAtFrom(node.ch[addr[k]], addr, k + 1)
 NodeAt(tree, addr) == NodeAtFrom(tree, addr, 1)
 
 Ref(r, addr) == [t |-> "el", r |-> r, addr |-> addr]
+(* a reference that also carries the node's primitive value and content hash *)
+RefOf(forest, r, addr) ==
+  LET nd == NodeAt(forest[r], addr) IN [t |-> "el", r |-> r, addr |-> addr, v |-> nd.v, h |-> nd.h]
 
 (* positions of the children called name, in document order *)
 ChildPositions(node, name) ==
@@ -36,7 +37,7 @@ ChildPositions(node, name) ==
 Kids(forest, it, name) ==
   LET node == NodeAt(forest[it.r], it.addr)
       pos == ChildPositions(node, name)
-  IN [q \in 1..Len(pos) |-> Ref(it.r, Append(it.addr, pos[q]))]
+  IN [q \in 1..Len(pos) |-> RefOf(forest, it.r, Append(it.addr, pos[q]))]
 
 (* names the schema allows on a node *)
 PrimNames == {"id", "extension", "value"}
@@ -92,7 +93,7 @@ NavFrom(forest, sch, focus, steps, k) ==
   ELSE LET r == ApplyStep(forest, sch, focus, steps[k])
        IN IF r.k # "ok" THEN r ELSE NavFrom(forest, sch, r.items, steps, k + 1)
 
-InputFocus(forest) == [r \in 1..Len(forest) |-> Ref(r, <<>>)]
+InputFocus(forest) == [r \in 1..Len(forest) |-> RefOf(forest, r, <<>>)]
 Nav(forest, sch, steps) == NavFrom(forest, sch, InputFocus(forest), steps, 1)
 
 (***************************************************************************)
